@@ -381,9 +381,11 @@ public:
 	// prefix operators
 	constexpr fixpnt operator-() const {
 		fixpnt a = sw::universal::twosComplement(*this);
-		constexpr fixpnt maxnegative(SpecificValue::maxneg);
-		if (a == maxnegative) {
-			a.flip(); // approximate but closed to negated value
+		if constexpr (arithmetic == Saturate) { // Modulo arithmetic wraps: the negation of maxneg is maxneg
+			constexpr fixpnt maxnegative(SpecificValue::maxneg);
+			if (a == maxnegative) {
+				a.flip(); // approximate but closed to negated value
+			}
 		}
 		return a; 
 	}
